@@ -388,6 +388,11 @@ impl DistinguishedName {
 				_ => return Err(Error::CouldNotParseCertificate),
 			};
 
+			// A name with a repeated attribute type can not be represented: refuse it
+			// rather than keep only the last value and produce a different name.
+			if dn.get(&dn_type).is_some() {
+				return Err(Error::CouldNotParseCertificate);
+			}
 			dn.push(dn_type, dn_value);
 		}
 		Ok(dn)
